@@ -594,8 +594,9 @@ impl Ser {
             }
         }
         {
-            let mut v: Vec<u8> = Vec::new();
+            let mut v = ChunkWriter::new(1 + rng.below(7));
             let r = guard(|| xot.write(target, &mut v));
+            let v = v.buf;
             let ts = guard(|| xot.to_string(target));
             if let (Ok(Ok(())), Ok(Ok(s))) = (&r, &ts) {
                 if v != s.as_bytes() {
@@ -605,6 +606,79 @@ impl Ser {
             }
         }
         ctx.count("writers_equal_string");
+        // with an XML declaration and / or a doctype the string is that prolog followed by exactly the token text
+        // of the SAME node (a document keeps the comments and PIs around its document element)
+        let doctype_ok = sub.kind == AKind::Elem || (sub.kind == AKind::Doc && sub.children.iter().filter(|c| c.kind == AKind::Elem).count() >= 1);
+        if rng.chance(1, 4) {
+            let decl = match rng.below(3) {
+                0 => None,
+                1 => Some(xot::output::xml::Declaration { encoding: None, standalone: None }),
+                _ => Some(xot::output::xml::Declaration { encoding: Some("UTF-8".into()), standalone: Some(rng.bool()) }),
+            };
+            let doctype = if doctype_ok && rng.chance(2, 3) {
+                Some(if rng.bool() {
+                    xot::output::xml::DocType::System { system: "urn:x:a.dtd".to_string() }
+                } else {
+                    xot::output::xml::DocType::Public { public: "-//X//DTD a//EN".to_string(), system: "a.dtd".to_string() }
+                })
+            } else {
+                None
+            };
+            if decl.is_some() || doctype.is_some() {
+                for (label, params) in [("plain", sparams.clone()), ("pretty", pparams.clone())] {
+                    let want = if label == "plain" { &plain } else { &pretty };
+                    let mut params = params;
+                    params.declaration = decl.clone();
+                    params.doctype = doctype.clone();
+                    let full = match guard(|| if with_norm { xot.serialize_xml_string_with_normalizer(params.clone(), target, TestNormalizer) } else { xot.serialize_xml_string(params.clone(), target) }) {
+                        Ok(Ok(t)) => t,
+                        _ => continue,
+                    };
+                    let mut cw = ChunkWriter::new(1 + rng.below(5));
+                    let wr = guard(|| if with_norm { xot.serialize_xml_write_with_normalizer(params.clone(), target, &mut cw, TestNormalizer) } else { xot.serialize_xml_write(params.clone(), target, &mut cw) });
+                    let prolog_ok = |pro: &str| {
+                        let mut rest = pro.trim_start_matches('\n');
+                        if decl.is_some() {
+                            if !rest.starts_with("<?xml ") {
+                                return false;
+                            }
+                            match rest.find("?>") {
+                                Some(i) => rest = rest[i + 2..].trim_start_matches('\n'),
+                                None => return false,
+                            }
+                        }
+                        if doctype.is_some() {
+                            if !rest.starts_with("<!DOCTYPE ") {
+                                return false;
+                            }
+                            match rest.find('>') {
+                                Some(i) => rest = rest[i + 1..].trim_start_matches('\n'),
+                                None => return false,
+                            }
+                        }
+                        rest.is_empty()
+                    };
+                    let ok = full.ends_with(want.as_str()) && prolog_ok(&full[..full.len() - want.len()]);
+                    if !ok {
+                        ctx.violation(
+                            "with a declaration / doctype the string is not the prolog followed by the token text of the same node",
+                            format!("C16/prolog-plus-tokens/{}/differs", label),
+                            base(format!("with prolog {:?}, tokens give {:?}", trunc(&full, 500), trunc(want, 500))),
+                        );
+                        return;
+                    }
+                    if !matches!(wr, Ok(Ok(()))) || cw.buf != full.as_bytes() {
+                        ctx.violation(
+                            "Write-based serialisation emits other bytes than the string API",
+                            format!("C16/serialize_xml_write/{}-with-prolog/differs", label),
+                            base(format!("chunk writer {} bytes in {} calls, string {} bytes", cw.buf.len(), cw.calls, full.len())),
+                        );
+                        return;
+                    }
+                }
+                ctx.count("with_declaration_or_doctype");
+            }
+        }
         // output events: grammar derived from the abstract tree and the scope model
         let outer = outer_scope(&a, &built, target);
         let sub_h = {
@@ -794,13 +868,13 @@ impl Monitor for Ser {
     fn rule(&self) -> String {
         match self.0 {
             SW::C14 => "XML-representable trees (one in ten wrapped in 15-130 levels of unmixed nesting) with text concentrated on ']' / '>' runs, CR/LF/TAB, whitespace-only text, and xml:space in {preserve, default, other} at any depth x random subsets of the tree's element names as CDATA-section elements and as suppress list x unescaped_gt x declaration {none, plain, encoding + standalone} x doctype {none, SYSTEM, PUBLIC} x indentation on/off, through serialize_xml_string or (one case in three) assembled from tokens() / pretty_tokens(), on documents, fragments and element subtrees: without indentation the reparse must be deep-equal; with indentation a whitespace diff must find only added whitespace-only text nodes, none inside mixed content, xml:space=preserve scope or a suppressed element. Non-trivial = tree >= 3 nodes; distinct by hash of (tree, parameters)".into(),
-            SW::C16 => "serialisable trees (one in eight wrapped in 15-130 levels of unmixed nesting, one in five with empty text nodes and one in five with adjacent text nodes, which only the API can create) and their element subtrees x {CDATA-section elements, unescaped_gt, suppress list} x {no normalizer, a normalizer that turns U+226E / U+FF06 / U+FB01 into other text}: concatenated tokens == string serialisation, pretty tokens with indentation / space / newline applied == pretty string, serialize_xml_write into a Vec and into a one-byte-per-call writer == string bytes, and outputs() == the per-node event sequence derived from the abstract tree and the scope model (top element's inherited bindings as a set). Non-trivial = tree >= 3 nodes; distinct by hash of (tree, parameters)".into(),
+            SW::C16 => "serialisable trees (one in eight wrapped in 15-130 levels of unmixed nesting, one in five with empty text nodes and one in five with adjacent text nodes, which only the API can create) and their element subtrees x {CDATA-section elements, unescaped_gt, suppress list} x {no normalizer, a normalizer that turns U+226E / U+FF06 / U+FB01 into other text}: concatenated tokens == string serialisation, pretty tokens with indentation / space / newline applied == pretty string, serialize_xml_write into a Vec and into a one-byte-per-call writer == string bytes, with a declaration and / or doctype requested the string == that prolog followed by the token text of the same node (also through a writer that takes a few bytes per call), and outputs() == the per-node event sequence derived from the abstract tree and the scope model (top element's inherited bindings as a set). Non-trivial = tree >= 3 nodes; distinct by hash of (tree, parameters)".into(),
         }
     }
     fn floors(&self, _tier: Tier) -> Vec<(&'static str, u64)> {
         match self.0 {
             SW::C14 => vec![("reparsed_equal.plain", 10_000), ("reparsed_equal.indented", 10_000), ("whitespace_nodes_inserted", 10_000), ("with_cdata_section_elements", 5_000), ("with_declaration", 1_000), ("deep_chain_trees", 2_000), ("serialised.via_token_entry_points", 10_000), ("with_doctype", 5_000)],
-            SW::C16 => vec![("tokens_equal_string", 10_000), ("pretty_tokens_equal_string", 10_000), ("writers_equal_string", 10_000), ("output_events_match", 10_000), ("deep_chain_trees", 2_000), ("trees_with_empty_text_nodes", 2_000), ("cases_with_a_changing_normalizer", 10_000), ("trees_with_adjacent_text_nodes", 2_000), ("single_leaf_targets", 5_000), ("trees_with_an_alias_for_the_xml_namespace", 2_000)],
+            SW::C16 => vec![("tokens_equal_string", 10_000), ("pretty_tokens_equal_string", 10_000), ("writers_equal_string", 10_000), ("output_events_match", 10_000), ("deep_chain_trees", 2_000), ("trees_with_empty_text_nodes", 2_000), ("cases_with_a_changing_normalizer", 10_000), ("trees_with_adjacent_text_nodes", 2_000), ("single_leaf_targets", 5_000), ("trees_with_an_alias_for_the_xml_namespace", 2_000), ("with_declaration_or_doctype", 2_000)],
         }
     }
     fn assumptions(&self) -> Vec<String> {
